@@ -790,6 +790,14 @@ func (e *Env) evalCall(c *ast.CallExpr) Val {
 	case "strcontains":
 		a, b := e.eval(arg(0)), e.eval(arg(1))
 		return boolVal("(str.contains " + a.L[0] + " " + b.L[0] + ")")
+	case "strindex":
+		// strindex(s, sub): position of the first occurrence, -1 if none (strings.Index)
+		a, b := e.eval(arg(0)), e.eval(arg(1))
+		return intVal("(str.indexof " + a.L[0] + " " + b.L[0] + " 0)")
+	case "strbyte":
+		// strbyte(c): the one-character string of a byte / code point
+		a := e.eval(arg(0))
+		return Val{T: tyString, L: []Term{"(str.from_code " + a.L[0] + ")"}}
 	}
 	if sf, ok := e.x.prog.spec.SpecFns[name]; ok {
 		if len(c.Args) != len(sf.Params) {
